@@ -140,7 +140,7 @@ def steps_within(sr):
 
 
 def gen_movie(rng, tier, kind=None):
-    kind = kind or rng.choice(['complete', 'complete', 'complete', 'dense', 'approach', 'twolost', 'noise', 'edge', 'vanish'])
+    kind = kind or rng.choice(['complete', 'complete', 'complete', 'diagonal', 'dense', 'approach', 'twolost', 'noise', 'edge', 'vanish'])
     sr = rng.choice([3, 3.5, 4, 5, 5, 6])
     sep = rng.choice([7, 9, 9, 11])
     if kind == 'dense':
@@ -162,7 +162,27 @@ def gen_movie(rng, tier, kind=None):
     shape = (S, S + rng.choice([0, 8]))
     tracks = []
     pw = rng.choice([0.0, 0.3, 0.6, 1.0])
-    if kind == 'complete':
+    if kind == 'diagonal':
+        # blobs on a diagonal: each lies inside its neighbour's rectangular relocation slice but outside the slice's
+        # disc and farther than 2*search_range (separate subnets); everything withheld after the first frame, so every
+        # subnet of a frame relocates from the (preprocessed, float) image one after the other
+        sr, sep, dia, rad, mem = 5, 9, None, 4, rng.choice([0, 1])
+        pre = rng.random() < 0.7
+        amp, sig = 200, 1.5
+        S = 72; shape = (S, S)
+        k = 9                                   # slice_radius = sr + rad + 1 = 10; (9,9) is 12.7 px away
+        y0, x0 = rng.randint(14, 18), rng.randint(14, 18)
+        n = rng.choice([2, 3, 3, 4])
+        steps = [(rng.choice([-1, 0, 1]), rng.choice([-1, 0, 1])) for t in range(1, nfr)]   # common motion: the geometry is kept
+        tracks = []
+        for i in range(n):
+            tr = [(y0 + k * i, x0 + k * i)]
+            for d in steps:
+                tr.append((tr[-1][0] + d[0], tr[-1][1] + d[1]))
+            tracks.append(tr)
+        pw = 1.0
+        noise_kind, minmass = 'none', 0
+    elif kind == 'complete':
         dmin = max(sep + 3, 2 * sr + 3, 4 * sig + 4)
         lo = rad + int(math.ceil(sr)) + 3
         p0 = place(rng, rng.randint(3, 8), shape, lo, dmin)
@@ -502,7 +522,7 @@ def eval_movies(chk, movies, tag):
         if r != 0:
             chk.violation('find_link: %s' % MOVIE_CODES.get(r, r), 'find_link (%s movie, memory=%d, preprocess=%s): %s' % (c['kind'], c['memory'], c['preprocess'], MOVIE_CODES.get(r, r)),
                           dict(code=r, **movie_json(c, rows, initial)))
-        if c['kind'] in ('complete', 'dense'):
+        if c['kind'] in ('complete', 'dense', 'diagonal'):
             msg = completeness(c, rows)
             if msg:
                 chk.violation('find_link: incomplete trajectories on a well-separated blob movie', 'find_link (withheld %d detections): %s' % (nwith, msg),
